@@ -43,6 +43,19 @@ def invalid_cases(cases):
         elif len(d["fields"]) == 1 and f0["req"] and f0["def"].get("k") == "none" and root_kind in ("set", "map", "binary"):
             # required lists may be nil (encoded as empty); every other required non-primitive must be set
             out.append(dict(base, id="inv-nilfield-" + tn, mut="nil-field", b=c["b"]))
+        # a required list-rooted field (plain or through typedefs) set to a nil slice: valid, encoded as empty
+        if len(d["fields"]) == 1 and f0["req"] and f0["def"].get("k") == "none":
+            t = f0["t"]
+            seen = 0
+            while t["k"] == "ref" and seen < 5:
+                tgt = [x for x in c["S"] if x["name"] == t["n"]][0]
+                if tgt["kind"] != "typedef":
+                    break
+                t = tgt["target"]
+                seen += 1
+            if t["k"] == "list":
+                out.append(dict(base, id="nil-list-" + tn, mut="nil-list", b=c["b"],
+                                v={"k": "struct", "f": [{"n": f0["name"], "v": {"k": "list", "e": []}}]}))
         if len(d["fields"]) == 1 and root_kind in ("list", "map") and json.dumps(f0["t"]).find('"n": "Inner"') >= 0 and c["v"]["f"]:
             out.append(dict(base, id="inv-nilelem-" + tn, mut="nil-elem", b=c["b"]))
     ch = by_tn.get("Choice", [])
